@@ -57,12 +57,15 @@ pub const FAULTS: &[&str] = &[
 	"replace_all",
 	"digit_edit",
 	"none",
+	"quoted_paste",
+	"quoted_truncated",
+	"double",
 ];
 
 pub struct C09 {
 	gen: HistGen,
 	history_len: usize,
-	pre: Option<(usize, u64)>,
+	pre: Option<(usize, std::collections::BTreeMap<String, u64>)>,
 	late_pending: bool,
 	rpc: Option<(usize, u32, RpcEndpoints, Option<SecretKey>)>,
 	decodes: u64,
@@ -136,6 +139,36 @@ pub fn fault_bytes(data: &[u8], other: &[u8], kind: &str, seed: u64) -> Vec<u8> 
 				words.swap(a, b);
 				d = words.join(" ").into_bytes();
 			}
+		}
+		"quoted_paste" | "quoted_truncated" => {
+			// a message pasted from a mail or a chat: indentation, blank lines and quote
+			// markers in front of it (and, for the second kind, the paste cut short
+			// somewhere after them)
+			let k = 1 + r.below(20) as usize;
+			let mut pre = vec![];
+			for _ in 0..k {
+				pre.push(*r.pick(&[b' ', b' ', b'\n', b'\t', b'>', b'\r']));
+			}
+			let keep = if kind == "quoted_truncated" {
+				match r.below(3) {
+					0 => r.below(16) as usize,
+					1 => 14 + r.below(4) as usize,
+					_ => r.idx(n),
+				}
+			} else {
+				n
+			};
+			d.truncate(std::cmp::min(keep, n));
+			pre.extend(d);
+			d = pre;
+		}
+		"double" => {
+			// two independent faults on one message
+			let simple: Vec<&&str> = FAULTS.iter().filter(|f| **f != "double").collect();
+			let a = **r.pick(&simple);
+			let b = **r.pick(&simple);
+			let d1 = fault_bytes(data, other, a, seed.wrapping_mul(31).wrapping_add(1));
+			d = fault_bytes(&d1, other, b, seed.wrapping_mul(37).wrapping_add(2));
 		}
 		"insert_ws" => {
 			let at = r.idx(n);
@@ -607,7 +640,7 @@ impl Prop for C09 {
 			if name == "decode" {
 				let w = args["w"].as_u64().unwrap_or(0) as usize;
 				if w < run.ex.world.wallets.len() && run.ex.world.is_open(w) {
-					self.pre = Some((w, run.ex.world.dir_digest(w)));
+					self.pre = Some((w, run.ex.world.dir_state(w)));
 					// a late-locked send awaiting its reply (known finding: the late-lock
 					// step reserves before the reply is verified)
 					self.late_pending = run.model.deals.iter().any(|d| {
@@ -664,25 +697,33 @@ impl Prop for C09 {
 			// (owner RPC replies are encrypted; their inner outcome is not inspected, so
 			// only panics, hangs and allocation are judged for them)
 			if rejected && run.ex.world.is_open(w) && !entry.starts_with("owner_rpc") {
-				let dig1 = run.ex.world.dir_digest(w);
+				let dig1 = run.ex.world.dir_state(w);
 				if dig0 != dig1 {
+					let kinds = crate::world::World::dir_diff_kinds(&dig0, &dig1);
+					// two listed findings have their own signature: the late-lock step that
+					// reserves before the reply is verified, and receive_tx, which writes its
+					// output and log entry (and takes a key index and a log id) before it has
+					// worked through the slate's signature data; anything else carries the
+					// kinds of durable items that changed
+					let family = if self.late_pending && entry.contains("finalize") {
+						"late_lock_pending".to_owned()
+					} else if entry.contains("receive")
+						&& kinds.split('+').all(|k| ["index", "log", "log_id", "output"].contains(&k))
+					{
+						"receive_records_left".to_owned()
+					} else {
+						kinds.clone()
+					};
 					v.push(run.viol(
 						"rejected_leaves_state",
-						&format!(
-							"rejected_input_changed_state:{}{}",
-							entry,
-							if self.late_pending && entry.contains("finalize") {
-								":late_lock_pending"
-							} else {
-								""
-							}
-						),
+						&format!("rejected_input_changed_state:{}:{}", entry, family),
 						format!(
-							"wallet {}: {} rejected a faulted ({}) input ({}) but the wallet directory changed",
+							"wallet {}: {} rejected a faulted ({}) input ({}) but the wallet directory changed ({})",
 							w,
 							entry,
 							fault,
-							out.err.clone().unwrap_or_default()
+							out.err.clone().unwrap_or_default(),
+							kinds
 						),
 					));
 					return v;
